@@ -164,6 +164,41 @@ manual_schema!(IntExclMin, i64, "IntExclMin", || integer(None, Some(0.0), Some(1
 manual_schema!(IntExclMax, i64, "IntExclMax", || integer(Some(-5.0), None, None, Some(5.0), None));
 manual_schema!(IntExclBoth, i64, "IntExclBoth", || integer(None, Some(-3.0), None, Some(100.0), None));
 manual_schema!(IntMultipleOf, i64, "IntMultipleOf", || integer(Some(0.0), None, Some(30.0), None, Some(3.0)));
+manual_schema!(ZeroLen, String, "ZeroLen", || SchemaObject {
+    instance_type: Some(InstanceType::String.into()),
+    string: Some(Box::new(schemars::schema::StringValidation { max_length: Some(0), min_length: None, pattern: None })),
+    ..Default::default()
+});
+manual_schema!(ZeroItems, Vec<u8>, "ZeroItems", || SchemaObject {
+    instance_type: Some(InstanceType::Array.into()),
+    array: Some(Box::new(schemars::schema::ArrayValidation {
+        items: Some(schemars::schema::SingleOrVec::Single(Box::new(Schema::Object(SchemaObject { instance_type: Some(InstanceType::Integer.into()), format: Some("uint8".into()), number: Some(Box::new(NumberValidation { minimum: Some(0.0), ..Default::default() })), ..Default::default() })))),
+        max_items: Some(0),
+        ..Default::default()
+    })),
+    ..Default::default()
+});
+manual_schema!(ZeroProps, BTreeMap<String, u8>, "ZeroProps", || SchemaObject {
+    instance_type: Some(InstanceType::Object.into()),
+    object: Some(Box::new(ObjectValidation { max_properties: Some(0), ..Default::default() })),
+    ..Default::default()
+});
+/// defaults that are `null`
+#[derive(Serialize, Deserialize, JsonSchema, Default)]
+pub struct OptNewtype(pub Option<u8>);
+#[derive(Serialize, Deserialize, JsonSchema, Default)]
+pub struct NullDefaults {
+    #[serde(default)]
+    pub any: serde_json::Value,
+    #[serde(default)]
+    pub unit: (),
+    #[serde(default)]
+    pub opt: Option<u8>,
+    #[serde(default)]
+    pub nt: OptNewtype,
+    #[serde(default)]
+    pub fixed: [u8; 0],
+}
 manual_schema!(MultipleOf, f64, "MultipleOf", || number(Some(0.0), None, Some(10.0), None, Some(2.5)));
 manual_schema!(XExt, String, "XExt", || {
     let mut o = SchemaObject { instance_type: Some(InstanceType::String.into()), ..Default::default() };
